@@ -323,7 +323,8 @@ class Graph:
 
 def graph_from(res):
     inits = [v[0] for v in res.tag("VERIF_INIT")]
-    edges = [(v[0]["f"], v[0]["a"], v[0]["t"]) for v in res.tag("VERIF_EDGE")]
+    edges = [(v[0]["f"], v[0]["a"], v[0]["t"]) for v in res.tag("VERIF_EDGE")
+             if not (isinstance(v[0]["a"], dict) and v[0]["a"].get("label") == "Done")]  # PlusCal's Terminating
     return Graph(inits, edges)
 
 
